@@ -379,10 +379,38 @@ func (g *srcGen) transform(vars []string) string {
 	if g.chance(0.4) {
 		want = "number"
 	}
-	if g.chance(0.3) {
-		return fmt.Sprintf("if %s then return %s else return %s end", g.pexpr(1, "boolean", vars), g.pexpr(2, want, vars), g.pexpr(1, want, vars))
+	stmts := []string{}
+	locals := append([]string{}, vars...)
+	// transform-local assignments, including ones that consume `match` or accumulate into an unset name
+	nset := g.pick(3)
+	for i := 0; i < nset; i++ {
+		switch g.pick(6) {
+		case 0:
+			g.feat("transform-set-match")
+			stmts = append(stmts, "set match to tail match")
+		case 1:
+			g.feat("transform-accumulate")
+			stmts = append(stmts, "set acc to acc + head match")
+			locals = append(locals, "acc")
+		case 2:
+			stmts = append(stmts, "set n to matchLength + "+fmt.Sprint(g.pick(3)))
+		case 3:
+			g.feat("transform-bounded-loop")
+			stmts = append(stmts, "set i to 0 loop if i >= "+fmt.Sprint(1+g.pick(3))+" then break end set i to i + 1 set acc to acc + 'k' end")
+			locals = append(locals, "acc")
+		case 4:
+			stmts = append(stmts, "set v1 to v1 + 'w'")
+		default:
+			stmts = append(stmts, "set s to "+g.pexpr(1, "string", locals))
+			locals = append(locals, "s")
+		}
 	}
-	return "return " + g.pexpr(2, want, vars)
+	if g.chance(0.3) {
+		stmts = append(stmts, fmt.Sprintf("if %s then return %s else return %s end", g.pexpr(1, "boolean", locals), g.pexpr(2, want, locals), g.pexpr(1, want, locals)))
+	} else {
+		stmts = append(stmts, "return "+g.pexpr(2, want, locals))
+	}
+	return strings.Join(stmts, " ")
 }
 
 // program ---------------------------------------------------------------------
@@ -415,10 +443,13 @@ func GenSource(r *rand.Rand, cfg GenCfg) GenProgram {
 			cmds = append(cmds, s)
 		}
 	}
-	if cfg.Transforms && g.chance(0.5) {
-		name := g.fresh("t")
-		cmds = append(cmds, "set "+name+" to transform "+g.transform([]string{"v1", "v2"})+" end")
-		g.trans = append(g.trans, name)
+	if cfg.Transforms && g.chance(0.6) {
+		nt := 1 + g.pick(2)
+		for i := 0; i < nt; i++ {
+			name := g.fresh("t")
+			cmds = append(cmds, "set "+name+" to transform "+g.transform([]string{"v1", "v2"})+" end")
+			g.trans = append(g.trans, name)
+		}
 	}
 	ncmd := 1
 	if cfg.MultiCmd && g.chance(0.3) {
@@ -433,7 +464,7 @@ func GenSource(r *rand.Rand, cfg GenCfg) GenProgram {
 		if cfg.Replace && g.chance(0.4) {
 			g.feat("replace")
 			items := []string{}
-			n := g.pick(4)
+			n := 1 + g.pick(4)
 			for j := 0; j < n; j++ {
 				x := g.r.Float64()
 				switch {
@@ -443,8 +474,12 @@ func GenSource(r *rand.Rand, cfg GenCfg) GenProgram {
 					items = append(items, g.caps[g.pick(len(g.caps))])
 				case x < 0.7:
 					items = append(items, []string{"value", "matchNumber", "startOffset", "endOffset", "lineNumber", "columnNumber", "totalMatches", "filename"}[g.pick(8)])
-				case x < 0.85 && len(g.trans) > 0:
+				case x < 0.9 && len(g.trans) > 0:
 					items = append(items, g.trans[g.pick(len(g.trans))])
+					if g.chance(0.4) {
+						g.feat("two-transforms-in-with")
+						items = append(items, "'|'", g.trans[g.pick(len(g.trans))])
+					}
 				default:
 					items = append(items, "undefinedName")
 				}
